@@ -12,7 +12,9 @@ package main
 import (
 	"encoding/json"
 	"fmt"
+	"reflect"
 	"regexp"
+	"runtime/debug"
 	"sort"
 	"strings"
 	"sync"
@@ -308,7 +310,57 @@ func collectKw(schema any, key string, out map[string]bool) {
 	}
 }
 
+// schemaText: the JSON text of a schema, remembered for the schema last asked about (the generators emit a schema with
+// all its values in a row)
+var lastSchema map[string]any // kept referenced, so that its address cannot be reused by another schema
+var lastSchemaText string
+
+func schemaText(s any) string {
+	m, ok := s.(map[string]any)
+	if !ok {
+		b, _ := json.Marshal(s)
+		return string(b)
+	}
+	if lastSchema == nil || reflect.ValueOf(m).Pointer() != reflect.ValueOf(lastSchema).Pointer() {
+		b, _ := json.Marshal(m)
+		lastSchema, lastSchemaText = m, string(b)
+	}
+	return lastSchemaText
+}
+
+func hasObject(v any) bool {
+	switch x := v.(type) {
+	case map[string]any:
+		return true
+	case []any:
+		for _, e := range x {
+			if hasObject(e) {
+				return true
+			}
+		}
+	}
+	return false
+}
+
 var regexCache sync.Map
+
+// collectDefaultStrings: the strings inside every `default` of the schema tree
+func collectDefaultStrings(schema any, out map[string]bool) {
+	switch m := schema.(type) {
+	case map[string]any:
+		for k, v := range m {
+			if k == "default" {
+				collectStrings(v, out)
+			} else {
+				collectDefaultStrings(v, out)
+			}
+		}
+	case []any:
+		for _, e := range m {
+			collectDefaultStrings(e, out)
+		}
+	}
+}
 
 // compilerTable: the verdicts of a non-default regex compiler, computed by calling it directly
 func compilerTable(name string, ps, ss []string) []any {
@@ -346,6 +398,7 @@ func caseHash(c hx.Case) int {
 func withOracle(c hx.Case) hx.Case {
 	strs := map[string]bool{}
 	collectStrings(c["value"], strs)
+	collectDefaultStrings(c["schema"], strs) // an injected default is visited like any member
 	pats, fmts := map[string]bool{}, map[string]bool{}
 	collectKw(c["schema"], "pattern", pats)
 	collectKw(c["schema"], "format", fmts)
@@ -566,7 +619,7 @@ func c01Schemas(ctx *hx.Ctx) []map[string]any {
 	out = append(out, comps...)
 	for i, cmp := range comps {
 		for j, a := range c01TopAtoms {
-			if !ctx.Thorough() && (i+j)%3 != 0 {
+			if !ctx.Thorough() && (i+j)%4 != 0 {
 				continue
 			}
 			if _, clash := cmp[a.k]; clash {
@@ -689,14 +742,18 @@ func c01DiscCases() []hx.Case {
 // emitCtx emits a case as it is and, when the schema says readOnly/writeOnly somewhere, also under the request and the
 // response reading, with and without the switch-off options; when it has a pattern, also with DisablePatternValidation;
 // and (withDfl: C12) when it has a `default`, also with DefaultsSet under both readings and alone.
-func emitCtx(emit func(hx.Case), c hx.Case, withDfl bool) {
+func emitCtx(emit func(hx.Case), c hx.Case, withDfl bool, thorough bool) {
 	emit(withOracle(c))
-	b, _ := json.Marshal(c["schema"])
-	js := string(b)
+	js := schemaText(c["schema"])
 	var variants []map[string]any
 	if strings.Contains(js, "Only\"") {
-		variants = append(variants, map[string]any{"ctx": "asreq"}, map[string]any{"ctx": "asrep"},
-			map[string]any{"ctx": "asreq", "roOff": true}, map[string]any{"ctx": "asrep", "woOff": true})
+		// the readings are only looked at when an OBJECT is visited: for a value without one the quick tier keeps one variant in four
+		if thorough || hasObject(c["value"]) {
+			variants = append(variants, map[string]any{"ctx": "asreq"}, map[string]any{"ctx": "asrep"},
+				map[string]any{"ctx": "asreq", "roOff": true}, map[string]any{"ctx": "asrep", "woOff": true})
+		} else if caseHash(c)%4 == 0 {
+			variants = append(variants, map[string]any{"ctx": "asreq"})
+		}
 	}
 	if strings.Contains(js, "\"pattern\"") {
 		variants = append(variants, map[string]any{"patOff": true})
@@ -718,11 +775,16 @@ func emitCtx(emit func(hx.Case), c hx.Case, withDfl bool) {
 	}
 }
 
-func genC01(ctx *hx.Ctx, emit func(hx.Case)) { genSchemaCases(ctx, emit, false) }
+func genC01(ctx *hx.Ctx, emit func(hx.Case)) { genSchemaCases(ctx, emit, false, 1) }
 
 // genSchemaCases is the generator shared by C01 and C12 (C12: withDfl, which adds the default-injection family and the
-// DefaultsSet variants of every schema with a `default`).
-func genSchemaCases(ctx *hx.Ctx, emit func(hx.Case), withDfl bool) {
+// DefaultsSet variants of every schema with a `default`). `stride` thins the big schema × value product in the quick
+// tier deterministically (schema i meets value j iff (i+j) % stride == 0); the thorough tier is always complete.
+func genSchemaCases(ctx *hx.Ctx, emit func(hx.Case), withDfl bool, stride int) {
+	if ctx.Thorough() {
+		stride = 1
+	}
+	debug.SetGCPercent(400) // the run allocates short-lived JSON trees only; the collector otherwise takes a fifth of the CPU
 	for i, c := range c01DiscCases() {
 		if !ctx.Thorough() && i%2 == 1 && i%7 != 0 {
 			continue
@@ -738,13 +800,16 @@ func genSchemaCases(ctx *hx.Ctx, emit func(hx.Case), withDfl bool) {
 				if !ctx.Thorough() && i >= 40 && (i+j)%3 != 0 {
 					continue
 				}
-				emitCtx(emit, hx.Case{"schema": s, "value": v}, true)
+				emitCtx(emit, hx.Case{"schema": s, "value": v}, true, ctx.Thorough())
 			}
 		}
 	}
-	for _, s := range c01Schemas(ctx) {
-		for _, v := range c01Values {
-			emitCtx(emit, hx.Case{"schema": s, "value": v}, withDfl)
+	for i, s := range c01Schemas(ctx) {
+		for j, v := range c01Values {
+			if (i+j)%stride != 0 {
+				continue
+			}
+			emitCtx(emit, hx.Case{"schema": s, "value": v}, withDfl, ctx.Thorough())
 		}
 	}
 	n := 6000
@@ -754,7 +819,7 @@ func genSchemaCases(ctx *hx.Ctx, emit func(hx.Case), withDfl bool) {
 	for i := 0; i < n; i++ {
 		s := randSchema(ctx.Rng, 1+ctx.Rng.Intn(3))
 		for j := 0; j < 3; j++ {
-			emitCtx(emit, hx.Case{"schema": s, "value": randValue(ctx.Rng, 1+ctx.Rng.Intn(3))}, withDfl)
+			emitCtx(emit, hx.Case{"schema": s, "value": randValue(ctx.Rng, 1+ctx.Rng.Intn(3))}, withDfl, ctx.Thorough())
 		}
 	}
 }
